@@ -813,9 +813,10 @@ class HTTPConnectionPool(ConnectionPool, RequestMethods):
             clean_exit = True
 
         except EmptyPoolError:
-            # Didn't get a connection from the pool, no need to clean up
-            clean_exit = True
-            release_this_conn = False
+            if conn is None:
+                # Didn't get a connection from the pool, no need to clean up
+                clean_exit = True
+                release_this_conn = False
             raise
 
         except (
